@@ -168,8 +168,8 @@ def sort_key(v):
 
 def scope(tier):
     if tier == "quick":
-        return dict(MaxBase=6, RecDepth=1)
-    return dict(MaxBase=9, RecDepth=1)
+        return dict(MaxBase=6, MaxOff=1, RecDepth=1)
+    return dict(MaxBase=9, MaxOff=2, RecDepth=1)
 
 
 def enumerate_pool(tier, wd):
@@ -203,14 +203,170 @@ def table_of(pool, res):
     return {"pool": pool, "eq": eq, "cmp": res["cmp"], "hash": hs}
 
 
-def evaluate(table, wd, triples=True, tag="mc", workers=1):
+def evaluate(table, wd, triples=True, tag="mc", workers=4):
+    """TLC evaluates P (and M) over the observed table; returns the TlcResult with FAIL / DRIFT / MONLY lines."""
     tp = os.path.join(wd, tag + ".table.ndjson")
     core.write_ndjson(tp, [table])
-    c = core.cfg(constants=dict(MaxBase=9, RecDepth=1, Triples=triples), invariants=["Report"])
-    r = core.run_tlc("MC_ValueOrder", c, os.path.join(wd, tag), workers=workers, env={"TABLE": tp}, timeout=1500, xmx="8g")
+    c = core.cfg(constants=dict(MaxBase=9, MaxOff=2, RecDepth=1, Triples=triples), invariants=["Report"])
+    r = core.run_tlc("MC_ValueOrder", c, os.path.join(wd, tag), workers=workers, env={"TABLE": tp}, timeout=2400, xmx="8g")
     if not r.ok:
         raise core.ToolError("MC_ValueOrder: %s %s\n%s" % (r.status, r.violated, r.counterexample[:2000]))
+    for tag_ in ("FAIL", "DRIFT", "MONLY"):
+        for x in r.tagged.get(tag_, []):
+            if not isinstance(x, dict):
+                raise core.ToolError("unparsable %s line from TLC: %r" % (tag_, x))
     return r
+
+
+# ----------------------------------------------------------------------------- known findings
+
+WHOLE = {"i32", "i64", "u32", "u64", "bigint", "biguint"}
+BIG = {"bigint", "biguint"}
+
+
+def is_zero(v):
+    return v["sp"] == "negz" or (v["sp"] == "fin" and v["g"] == 0 and v["u"] == 0 and v["t"] == 0)
+
+
+def leaf_pairs(x, y):
+    """corresponding leaves of two records of the same shape"""
+    if x["k"] == "record" and y["k"] == "record":
+        if len(x["attrs"]) == len(y["attrs"]) and len(x["items"]) == len(y["items"]):
+            for p, q in zip(x["attrs"], y["attrs"]):
+                yield from leaf_pairs(p["value"], q["value"])
+            for p, q in zip(x["items"], y["items"]):
+                if p["slot"] and q["slot"]:
+                    yield from leaf_pairs(p["key"], q["key"])
+                yield from leaf_pairs(p["value"], q["value"])
+    else:
+        yield (x, y)
+
+
+def pair_classes(a, b):
+    """The defect classes (the `class` of a known_findings signature) an unordered pair of values falls into:
+    which cell of the compare / eq / hash tables the pair goes through, and the relation between the operands."""
+    ka, kb = a["k"], b["k"]
+    if ka == "f64" and kb != "f64":
+        a, b, ka, kb = b, a, kb, ka
+    s = set()
+    if "data" in (ka, kb) and ka != kb and {ka, kb} <= {"data", "text", "record"}:
+        s.add("data-vs-text-or-record")
+    if ka == "f64" and kb == "f64":
+        if is_zero(a) and is_zero(b) and a["sp"] != b["sp"]:
+            s.add("negative-zero-hash")
+        elif a["sp"] == b["sp"] and a["sp"] in ("pinf", "ninf"):
+            s.add("infinity-vs-itself")
+        elif a["sp"] in ("fin", "negz") and b["sp"] in ("fin", "negz") and a != b:
+            s.add("float-epsilon")
+    if ka in WHOLE and kb == "f64":
+        if b["sp"] == "nan":
+            if ka in BIG:
+                s.add("big-vs-nan")
+        else:
+            s.add("big-vs-float" if ka in BIG else "int-vs-float")
+    if ka == "record" and kb == "record":
+        for x, y in leaf_pairs(a, b):
+            if not (x["k"] == "record" and y["k"] == "record"):
+                s |= pair_classes(x, y)
+    return s
+
+
+def tuple_classes(vals):
+    s = set()
+    if len(vals) == 1:
+        return s
+    for i in range(len(vals)):
+        for j in range(i + 1, len(vals)):
+            s |= pair_classes(vals[i], vals[j])
+    return s
+
+
+def open_classes():
+    """class -> (finding, laws) for the open findings of C19"""
+    m = {}
+    for f in core.open_findings(PROP):
+        sig = f.get("signature", {})
+        if isinstance(sig, dict) and "class" in sig:
+            m[sig["class"]] = (f, set(sig.get("laws", [])))
+    return m
+
+
+def triage(pool, labels, fails, out, table, res, scope_note):
+    """Every law instance the real code breaks is either covered by an open known finding
+    (its operands fall into the finding's class, the finding lists the law, and the transcription M of the
+    unchanged case table breaks the law on the very same tuple) or it is a VIOLATION."""
+    oc = open_classes()
+    hits = collections.defaultdict(lambda: collections.Counter())
+    examples = {}
+    viol = []
+    for f in fails:
+        vals = [pool[i - 1] for i in f["tup"]]
+        cls = tuple_classes(vals)
+        predicted = (f["m"] is False)
+        matched = sorted(c for c in cls if c in oc and f["law"] in oc[c][1])
+        if predicted and matched:
+            for c in matched:
+                hits[c][f["law"]] += 1
+                examples.setdefault((c, f["law"]), f)
+        else:
+            viol.append((f, cls, predicted))
+    for c in sorted(hits):
+        fnd = oc[c][0]
+        parts = []
+        for law, n in sorted(hits[c].items()):
+            e = examples[(c, law)]
+            parts.append("%s x%d e.g. (%s)" % (law, n, ", ".join(labels[i - 1] for i in e["tup"])))
+        out.known_finding("%s [%s] %s -- %s" % (fnd["id"], scope_note, fnd["what"], "; ".join(parts)))
+    # violations: group by (law, kinds) so that a broken cell gives a handful of replay files, not thousands
+    groups = collections.OrderedDict()
+    for f, cls, predicted in viol:
+        key = (f["law"], tuple(pool[i - 1]["k"] for i in f["tup"]))
+        groups.setdefault(key, []).append((f, cls, predicted))
+    for (law, kinds), items in list(groups.items())[:40]:
+        f, cls, predicted = items[0]
+        idx = f["tup"]
+        obs = {"cmp": [[table["cmp"][i - 1][j - 1] for j in idx] for i in idx],
+               "eq": [[table["eq"][i - 1][j - 1] for j in idx] for i in idx],
+               "hash": [res["hash"][i - 1] for i in idx]}
+        why = ("not covered by any open known finding" if not cls else
+               "touches the known-finding classes %s but %s" % (sorted(cls), "the unchanged case table (M) does not break the law on this tuple"
+                                                                  if not predicted else "none of them lists this law"))
+        out.violation("law %s broken by the real Value::{eq,cmp,hash} on (%s) [cell %s]: observed %s; %s; %d tuples in this cell" % (
+            law, ", ".join(labels[i - 1] for i in idx), " x ".join(kinds), json.dumps(obs), why, len(items)),
+            {"component": "valueorder", "law": law, "labels": [labels[i - 1] for i in idx],
+             "values": [pool[i - 1] for i in idx], "observed": obs})
+    return hits, viol
+
+
+# ----------------------------------------------------------------------------- statistics
+
+def pair_stats(table):
+    """non-trivial instances of the element / pair laws, counted from the observed table: operands are two
+    different pool elements and the law's premise holds (EqImpliesHashEq: eq(a,b))."""
+    n = len(table["pool"])
+    nt = collections.Counter()
+    for a in range(n):
+        for b in range(n):
+            if a == b:
+                continue
+            for law in ("NoPanic", "EqSymmetric", "CmpAntisymmetric", "CmpEqualIffEq"):
+                nt[law] += 1
+            if table["eq"][a][b] == 1:
+                nt["EqImpliesHashEq"] += 1
+    return nt
+
+
+def impact_ops(pool, labels, hits_examples, wd):
+    """The collections the statement mentions, run by the harness on one example tuple per known finding."""
+    ops, meta = [], []
+    for (cls, law), f in sorted(hits_examples.items()):
+        xs = sorted(set(i - 1 for i in f["tup"]))
+        for op in ("sort", "btree", "hashmap"):
+            ops.append({"op": op, "xs": [i - 1 for i in f["tup"]]})
+            meta.append((cls, law, op, [labels[i - 1] for i in f["tup"]]))
+    ops.append({"op": "sort", "xs": list(range(len(pool)))})
+    meta.append(("whole-pool", "-", "sort", ["<all %d values>" % len(pool)]))
+    return ops, meta
 
 
 def run(tier, out):
@@ -220,13 +376,98 @@ def run(tier, out):
     res = observe(pool, [], wd)
     table = table_of(pool, res)
     r = evaluate(table, wd)
-    core.log("pool %d  states %d  wall %.1f  fails %d drift %d monly %d" % (
-        len(pool), r.distinct, r.wall, len(r.tagged["FAIL"]), len(r.tagged["DRIFT"]), len(r.tagged["MONLY"])))
-    json.dump({"labels": labels, "fail": r.tagged["FAIL"], "drift": r.tagged["DRIFT"], "monly": r.tagged["MONLY"],
-               "disp": res["disp"], "cov": r.coverage}, open(os.path.join(wd, "result.json"), "w"))
-    out.add(evaluations=r.distinct, distinct_nontrivial=r.distinct, rule="proto")
-    out.sample({"x": 1})
+    fails, drift, monly = r.tagged.get("FAIL", []), r.tagged.get("DRIFT", []), r.tagged.get("MONLY", [])
+    hits, viol = triage(pool, labels, fails, out, table, res, "pool of %d" % len(pool))
+
+    cov = {a: {"distinct": d, "taken": t} for a, (d, t) in r.coverage.items()}
+    never = [a for a, (d, t) in r.coverage.items() if t == 0 and a.startswith("Eval")]
+    laws_eval = sum(t for a, (d, t) in r.coverage.items() if a.startswith("Eval") and a != "EvalConform")
+    nt = pair_stats(table)
+    nt["EqTransitive"] = r.coverage.get("EvalEqTransitive", (0, 0))[0]
+    nt["CmpTransitive"] = r.coverage.get("EvalCmpTransitive", (0, 0))[0]
+    n = len(pool)
+    for d in drift[:3]:
+        a, b = d["tup"]
+        out.notes.append("MODEL-DRIFT ValueOrder cell (%s, %s): M says cmp=%s eq=%s hash-equal=%s, the code says cmp=%s eq=%s hash-equal=%s" % (
+            labels[a - 1], labels[b - 1], d["cmp"], d["eq"], d["heq"], table["cmp"][a - 1][b - 1], table["eq"][a - 1][b - 1],
+            table["hash"][a - 1] == table["hash"][b - 1]))
+    # impact of the findings on sorted / keyed collections (information, no verdict)
+    examples = {}
+    oc = open_classes()
+    for f in fails:
+        if f["m"] is False:
+            for c in tuple_classes([pool[i - 1] for i in f["tup"]]):
+                if c in oc and f["law"] in oc[c][1]:
+                    examples.setdefault((c, f["law"]), f)
+    ops, meta = impact_ops(pool, labels, examples, wd)
+    ores = observe(pool, ops, wd, tag="ops")["ops"]
+    impact = []
+    for (cls, law, op, labs), o in zip(meta, ores):
+        o = dict(o)
+        for k in ("order", "keys"):
+            if k in o and len(o[k]) <= 6:
+                o[k] = [labels[i] for i in o[k]]
+            elif k in o:
+                o[k] = "<%d>" % len(o[k])
+        impact.append({"class": cls, "law": law, "op": op, "on": labs, "observed": o})
+    by_law = collections.Counter(f["law"] for f in fails)
+    out.add(evaluations=laws_eval, distinct_nontrivial=sum(nt.values()),
+            rule="pool enumerated by TLC from the data model of ValueOrder.tla (scope %s), concretised exactly; one evaluation = one law "
+                 "instance (law, tuple of pool elements) evaluated by TLC over the table observed on the real Value::{eq,cmp,hash}: "
+                 "%d elements, %d ordered pairs x 5 pair laws, %d ordered triples (instances with a true premise are states); "
+                 "non-trivial = operands pairwise different pool elements and the premise of the law holds "
+                 "(eq(a,b) for EqImpliesHashEq; the two premises for the transitivity laws)" % (json.dumps(scope(tier)), n, n * n, n ** 3),
+            nontrivial_by_law=dict(nt), pool_size=n, pool_by_kind=dict(collections.Counter(v["k"] for v in pool)),
+            states=r.distinct, transitions=r.generated, gen_states=gen.distinct,
+            action_coverage=cov, actions_never_taken=never,
+            law_instances_broken_by_code=len(fails), broken_by_law=dict(by_law),
+            broken_and_covered_by_known_findings=len(fails) - len(viol), unexcused=len(viol),
+            model_drift_cells=len(drift), cells_compared_with_M=n * n, broken_only_in_M=len(monly),
+            impact_on_collections=impact[:40], exhaustive=True, tlc_wall_s=round(r.wall, 1),
+            checker_cmd="tlc Gen_ValueOrder (pool) ; h_core valueorder (observe) ; tlc MC_ValueOrder INVARIANT Report (laws P, model M, Conform)")
+    rnd = __import__("random").Random(core.seed())
+    for _ in range(3):
+        i, j = rnd.randrange(n), rnd.randrange(n)
+        out.sample({"a": labels[i], "b": labels[j], "descriptor_a": descriptor(pool[i]), "descriptor_b": descriptor(pool[j]),
+                    "eq": table["eq"][i][j], "cmp": table["cmp"][i][j], "hash_equal": table["hash"][i] == table["hash"][j]})
+    for f in fails[:: max(1, len(fails) // 3)][:3]:
+        out.sample({"law": f["law"], "broken_on": [labels[i - 1] for i in f["tup"]], "also_broken_in_M": f["m"] is False})
+    out.assumptions += ["hash equality is observed through std DefaultHasher (SipHash-1-3, fixed keys): a 64-bit collision would hide a hash difference",
+                        "the laws are evaluated on the pool only (all pairs, all triples); values outside the pool are not covered",
+                        "a broken law instance is excused only if an open known finding lists its law and class AND the transcription "
+                        "of the unchanged compare/eq/hash tables (M in ValueOrder.tla) breaks the same law on the same tuple"]
+    core.log("[C19] pool %d: %d law instances evaluated by TLC (%d states, %.1fs); broken %d (excused %d, unexcused %d); drift cells %d" % (
+        n, laws_eval, r.distinct, r.wall, len(fails), len(fails) - len(viol), len(viol), len(drift)))
+    if never:
+        out.notes.append("actions never taken: %s" % never)
 
 
 def replay(path, out):
+    wd = core.workdir("C19_replay")
+    obj = json.load(open(path))["replay"]
+    vals = []
+    for v in obj["values"]:
+        if v not in vals:
+            vals.append(v)
+    pool = sorted(vals, key=sort_key)
+    labels = [label(v) for v in pool]
+    core.build_harness("h_core", "valueorder")
+    res = observe(pool, [], wd)
+    table = table_of(pool, res)
+    print("values:", labels)
+    print("observed eq :", table["eq"])
+    print("observed cmp:", table["cmp"])
+    print("observed hash classes:", table["hash"])
+    r = evaluate(table, wd, workers=1)
+    fails = r.tagged.get("FAIL", [])
+    for f in fails:
+        print("law %s broken on (%s)%s" % (f["law"], ", ".join(labels[i - 1] for i in f["tup"]),
+                                          "  [also broken by the unchanged case table M]" if f["m"] is False else ""))
+    hits, viol = triage(pool, labels, fails, out, table, res, "replay")
+    for k in out.known:
+        print("KNOWN-FINDING: property=%s %s" % (PROP, k))
+    if viol:
+        print("VIOLATION property=%s replay=%s" % (PROP, path))
+        return 1
+    print("no unexcused law violation on this tuple")
     return 0
